@@ -27,6 +27,7 @@ def T(s, **kw):
 def run(repo, run, tier):
     run.assumptions += ["real arithmetic: 'to rounding' / 'to the solver tolerance' equality of the returned numbers is not decided",
                         "the tables have the (s, s+1) = [c | A], (r, s+1) = [. | b] layout (verified on the folded tables)"]
+    every_return_steps(repo, run)
     layout(repo, run)
     stage_args(repo, run)
     increment(repo, run)
@@ -39,6 +40,20 @@ def run(repo, run, tier):
     slots(repo, run, rule_id="C02.7")
     current_integrator_is_called(repo, run)
     own_stage_storage(repo, run)
+
+
+def every_return_steps(repo, run):
+    """the increment a Runge-Kutta integrator hands back is the one its step() computed from the table: no return of __call__ (or of the splitting step) comes before
+    the stage sweep - a 'nothing to do' short-cut keyed on t + h == t also swallows every non-zero step below the resolution of the clock (t = 1.7e9, h = 1e-7),
+    where h*f is far from zero"""
+    from .common import returns_pass_through
+    returns_pass_through(repo, run, "C02.10", ITY, "RungeKuttaIntegrator.__call__",
+                         [("a call of self.step(...)", lambda st: any(isinstance(c, ast.Call) and dotted(c.func) == "self.step" for c in ast.walk(st)) and
+                           not isinstance(st, (ast.If, ast.For, ast.While, ast.Try, ast.With)))],
+                         "the Runge-Kutta driver", "the increment handed back is not h * sum_i b_i k_i of the stage recursion (and the stage array is not the table's)")
+    returns_pass_through(repo, run, "C02.10", ITY, "ExplicitSymplecticIntegrator.step",
+                         [("the stage loop (the loop that evaluates the right-hand side)", lambda st: isinstance(st, ast.For) and any(isinstance(c, ast.Call) and dotted(c.func) == "rhs" for c in ast.walk(st)))],
+                         "the splitting step", "the increment handed back is whatever the instance held from the previous call")
 
 
 # ------------------------------------------------------------------------------------------------
